@@ -659,7 +659,7 @@ def run_log_safe(case, obl, variant):
 def liveness_strategy(safe):
     def s(tier):
         return st.fixed_dictionaries({
-            "variant": st.sampled_from([0, 2] if safe else [0, 1, 2, 1, 2]),
+            "variant": st.sampled_from([0, 1, 2] if safe else [0, 1, 2, 1, 2]),
             "n": st.sampled_from([3, 4, 5]),
             "net": quiet_net_strategy(tier, maxd=8),
             "node": st.integers(0, 4),
@@ -667,7 +667,7 @@ def liveness_strategy(safe):
             "hb": st.sampled_from([16, 64, 256]),
             "k": st.integers(1, 3),
             "gap": st.integers(0, 40),
-            "mode": st.just(1) if safe else st.sampled_from([0, 0, 1, 2]),
+            "mode": st.sampled_from([1, 2]) if safe else st.sampled_from([0, 0, 1, 2]),
         })
     return s
 
@@ -1072,27 +1072,27 @@ RULE_LIVE = ("fault-free network, per-message delays 0-8 ticks from the case: (p
              "committed and applied in order at every node within 6 max-delays + 2 heartbeats; non-trivial = max delay >= 2 or k >= 2")
 
 OBLIGATIONS = [
-    Obligation("paxos", paxos_strategy, lambda c: run_paxos(c, "paxos"), {"quick": 1800, "thorough": 80000}, RULE_PAXOS),
-    Obligation("multi", log_strategy("multi"), lambda c: run_log(c, "multi", "multi"), {"quick": 900, "thorough": 40000},
+    Obligation("paxos", paxos_strategy, lambda c: run_paxos(c, "paxos"), {"quick": 1400, "thorough": 80000}, RULE_PAXOS),
+    Obligation("multi", log_strategy("multi"), lambda c: run_log(c, "multi", "multi"), {"quick": 700, "thorough": 40000},
                RULE_LOG.format(v="MultiPaxosNode")),
-    Obligation("flexible", log_strategy("flexible"), lambda c: run_log(c, "flexible", "flexible"), {"quick": 900, "thorough": 40000},
+    Obligation("flexible", log_strategy("flexible"), lambda c: run_log(c, "flexible", "flexible"), {"quick": 700, "thorough": 40000},
                RULE_LOG.format(v="FlexiblePaxosNode")),
     Obligation("multi-safe", log_safe_strategy("multi"), lambda c: run_log_safe(c, "multi-safe", "multi"),
-               {"quick": 600, "thorough": 20000}, RULE_SAFE.format(v="multi")),
+               {"quick": 450, "thorough": 20000}, RULE_SAFE.format(v="multi")),
     Obligation("flexible-safe", log_safe_strategy("flexible"), lambda c: run_log_safe(c, "flexible-safe", "flexible"),
-               {"quick": 600, "thorough": 20000}, RULE_SAFE.format(v="flexible")),
-    Obligation("liveness", liveness_strategy(False), lambda c: run_liveness(c, "liveness"), {"quick": 700, "thorough": 20000}, RULE_LIVE),
-    Obligation("liveness-safe", liveness_strategy(True), lambda c: run_liveness(c, "liveness-safe"), {"quick": 500, "thorough": 20000},
-               RULE_LIVE + " — restricted to single-decree Paxos and Flexible Paxos with the submit()+replication call (the paths that "
-               "are live on this tree), no exclusion"),
-    Obligation("election", election_strategy(False), lambda c: run_election(c, "election"), {"quick": 800, "thorough": 30000},
+               {"quick": 450, "thorough": 20000}, RULE_SAFE.format(v="flexible")),
+    Obligation("liveness", liveness_strategy(False), lambda c: run_liveness(c, "liveness"), {"quick": 500, "thorough": 20000}, RULE_LIVE),
+    Obligation("liveness-safe", liveness_strategy(True), lambda c: run_liveness(c, "liveness-safe"), {"quick": 400, "thorough": 20000},
+               RULE_LIVE + " — restricted to the paths that are live on this tree: single-decree Paxos, and Multi/Flexible Paxos on a FIFO "
+               "network (one constant delay) with the submit()+replication call or the MultiPaxosForward event; no exclusion"),
+    Obligation("election", election_strategy(False), lambda c: run_election(c, "election"), {"quick": 600, "thorough": 30000},
                "3-5 LeaderElection nodes x {Bully, Ring, Randomized(ballot_range=16)}, staggered start() instants, scripted delays 0-120 ticks, "
                "loss, partitions, 0-2 late joiners registered with add_member() on every node before they start, strategy draws from the "
                "case; judged after every event on (current_term, current_leader) of every node; non-trivial = >= 2 distinct (term, leader) "
                "pairs observed"),
-    Obligation("election-safe", election_strategy(True), lambda c: run_election(c, "election-safe"), {"quick": 500, "thorough": 20000},
+    Obligation("election-safe", election_strategy(True), lambda c: run_election(c, "election-safe"), {"quick": 400, "thorough": 20000},
                "election obligation restricted to static membership (no add_member after construction), no exclusion"),
-    Obligation("lock", lock_strategy, lambda c: run_lock(c, "lock"), {"quick": 1400, "thorough": 60000},
+    Obligation("lock", lock_strategy, lambda c: run_lock(c, "lock"), {"quick": 1000, "thorough": 60000},
                "one DistributedLock (lease 3-400 ticks, max_waiters 0-2), 4 workers, 1-18 operations on 2 locks at generated instants: "
                "acquire (worker process waits on the future), try_acquire, release with the worker's last token, release with an arbitrary "
                "token, LockAcquireRequest / LockReleaseRequest events; lease-expiry events scheduled by the caller as in the repo's tests "
